@@ -8,13 +8,21 @@ LIFE_NOTE = ("Trusted: Cosmos SDK modules and Tendermint; the flat-snapshot seam
              "custom begin/end-blockers called directly) is bound to the real ABCI pipeline by the conformance replay; bounds are the "
              "alphabet, parameter menus, roots and depth reported in the evidence file.")
 
+X_TECH = "explicit-state model checking of the implementation (iterative-deepening DFS over flat store snapshots; step and state oracles)"
+
+def life(text, ref):
+    return dict(cat="model_checking", engine="X", text=text, tech=X_TECH, ref=ref)
+
 CHECKS = {
-    "C13": dict(cat="model_checking", engine="X",
-                text="Exhaustive explicit-state search of the real handlers and end-blockers over the lifecycle alphabet; the four referential-integrity relations are evaluated in every reachable state and a violation is attributed to the step that first broke it. Bounded (depth, menus) but complete within the bound.",
-                tech="explicit-state model checking of the implementation (iterative-deepening DFS over flat store snapshots, state invariants)", ref="5/C13"),
-    "C14": dict(cat="model_checking", engine="X",
-                text="Exhaustive explicit-state search of the real handlers and end-blockers over the lifecycle alphabet; per-provider counters and pool totals are recomputed from the shard and pledge records in every reachable state.",
-                tech="explicit-state model checking of the implementation (iterative-deepening DFS over flat store snapshots, state invariants)", ref="5/C14"),
+    "C04": life("Exhaustive search of the real handlers/end-blockers over the lifecycle alphabet. Every transition's bank flows are compared with the quotes of the orders it created, the allowed recipients, and the change of the recomputed market/order obligations (dust tolerance per settlement); every state compares claimed+accrued income with an independent bytes x blocks integral.", "5/C04, A.1"),
+    "C05": life("Exhaustive search over the lifecycle alphabet plus fault-sequence scenarios (silent providers, re-assignment, give-up, cancel, updates on an existing model). At the step that ends a never-stored order: refund == charge, shards gone, pledges untouched, model restored or removed with its alias, no stale expiry entry.", "5/C05"),
+    "C06": life("Exhaustive search over the lifecycle alphabet; in every reachable state each escrow balance is compared with the obligations recomputed from the records (A.1/A.2); module-paid operations failing for lack of funds are reported.", "5/C06, A.1, A.2"),
+    "C07": life("Exhaustive search over the lifecycle alphabet; for every transition and provider, coins moved between provider and node escrow must equal the change of recorded collateral net of debt plus capacity pledge; used capacity range in every state.", "5/C07, A.2"),
+    "C11": life("Exhaustive search over the lifecycle alphabet plus fault-sequence scenarios with a ghost paid-until height per completed shard: not released early, released at the end-block of its term, model alive while a paid shard remains and gone with the last one.", "5/C11, A.3"),
+    "C12": life("Exhaustive enumeration of provider silence patterns per timeout interval (all complete/silent choices, optional late joiner, update orders, migrations) up to the give-up bound, plus the lifecycle alphabet: no unresolved order without a timeout entry, resolution within the bound, no change to a fully stored order by the timeout mechanism.", "5/C12, A.4"),
+    "C13": life("Exhaustive explicit-state search of the real handlers and end-blockers over the lifecycle alphabet; the four referential-integrity relations are evaluated in every reachable state and a violation is attributed to the step that first broke it. Bounded (depth, menus) but complete within the bound.", "5/C13"),
+    "C14": life("Exhaustive explicit-state search of the real handlers and end-blockers over the lifecycle alphabet; per-provider counters and pool totals are recomputed from the shard and pledge records in every reachable state.", "5/C14"),
+    "C16": life("Exhaustive search over the lifecycle alphabet with updates and force-pushes plus fault-sequence scenarios: ids strictly increasing, at most one order in flight per model, updates accepted only on the latest committed base, history appended / last entry replaced at completion.", "5/C16"),
 }
 
 NOT_YET = {}
